@@ -80,6 +80,9 @@ func (r *Runner) judgeProj(line, obs, finger string, proj func(string) string, s
 	if obs == "hang" || obs == "panic" {
 		// no answer at all: the implementation fails on this input whatever the reference says
 		r.c.mismatch(Mismatch{Kind: "spec", Backend: r.inst.Kind, Case: cs, Impl: obs, Model: model, Spec: "an answer (" + spec + ")", Finger: finger + ":" + obs})
+	} else if (obs == "err InternalError" || obs == "hstatus 500" || obs == "status 500") && !strings.HasPrefix(model, "err ") && !strings.HasPrefix(model, "panic") {
+		// a 500 where the reference answers normally: no property's statement admits it
+		r.c.mismatch(Mismatch{Kind: "spec", Backend: r.inst.Kind, Case: cs, Impl: obs, Model: model, Spec: "not an internal error (" + spec + ")", Finger: finger})
 	} else if spec != "-" && specProj != nil && specProj(is) != specProj(so) {
 		r.c.mismatch(Mismatch{Kind: "spec", Backend: r.inst.Kind, Case: cs, Impl: obs, Model: model, Spec: spec, Finger: finger})
 	} else if proj(io) != proj(mo) {
